@@ -576,4 +576,72 @@ theorem xbufsize_le_record (data : List UInt8) (n : Int) (s : XBufSize.St)
 /-- Non-vacuity: a concrete hello header on which the translated function answers a size. -/
 example : ∃ s, XBufSize.run { p0 := [0x16, 3, 1, 0, 50, 1, 0, 0, 46] } = .ok ((55, none), s) := ⟨_, rfl⟩
 
+/-! ### Shape pins (change detectors, moved here from `C10Facts.lean` in round 4)
+
+Constants and ordered check lists of `clientHelloBufferSize` and of the parser, as extracted by `tools/factgen/c10.go`
+(helpers inlined, hoisted offset locals resolved, `for { if C { break } … }` read as `for !C`, names erased). They notice
+that the functions were edited; what the edit *means* is decided by the streams. A pattern the extractor no longer finds
+leaves its constant undefined (`Generated.C10.shapeNotes`), and this module stops building. -/
+
+theorem shape_found : Generated.C10.shapeNotes = [] := by decide
+
+/-- `len(data) < 9`, `Peek(9)` and `return handshakeLength + 9` are the model's `peekLen`. -/
+theorem bufsize_peek_pinned :
+    Generated.C10.peekMin = Model.C10.peekLen ∧ Generated.C10.bufsizeAdd = Model.C10.peekLen := by decide
+
+/-- `readServerName(buf[5:])`: the record header that is skipped; 9 = 5 + 4. -/
+theorem record_header_pinned :
+    Generated.C10.hsHdrLen = Model.C10.hsHdrLen ∧ Model.C10.recHdrLen + Model.C10.hsHdrLen = Model.C10.peekLen := by decide
+
+/-- Record type 0x16 at offset 0, client_hello 0x01 at offset 5, record length limit 16384. -/
+theorem header_constants_pinned :
+    Generated.C10.recTypeOff = 0 ∧ Generated.C10.recTypeHandshake = Model.C10.recTypeHandshake.toNat ∧
+    Generated.C10.hsTypeOff = 5 ∧ Generated.C10.hsTypeClientHello = Model.C10.hsTypeClientHello.toNat ∧
+    Generated.C10.maxRecordLen = Model.C10.maxRecordLen := by decide
+
+/-- The two big-endian length fields are read from bytes 3,4 and 6,7,8 with the shifts of `be16`/`be24`. -/
+theorem length_fields_pinned :
+    (Generated.C10.recLenHiOff, Generated.C10.recLenShift, Generated.C10.recLenLoOff) = (3, 8, 4) ∧
+    (Generated.C10.hsLenOff0, Generated.C10.hsLenShift0, Generated.C10.hsLenOff1, Generated.C10.hsLenShift1,
+      Generated.C10.hsLenOff2) = (6, 16, 7, 8, 8) := by decide
+
+/-- The fixed offsets of `unmarshal`. -/
+theorem unmarshal_offsets_pinned :
+    Generated.C10.minHelloLen = Model.C10.minHelloLen ∧ Generated.C10.randomOff = Model.C10.randomOff ∧
+    Generated.C10.randomEnd = Model.C10.sidLenOff ∧ Generated.C10.sidLenOff = Model.C10.sidLenOff ∧
+    Generated.C10.maxSidLen = Model.C10.maxSidLen ∧ Generated.C10.sidOff = Model.C10.sidOff ∧
+    Generated.C10.sidRebindOff = Model.C10.sidOff ∧ Generated.C10.cipherRebindOff = 2 ∧
+    Generated.C10.compressionRebindOff = 1 := by decide
+
+/-- The store of the server name is guarded by exactly two tests: extension type `== 0` (outermost) and
+name type `== 0` (innermost, followed by `break`); no other extension is looked at. -/
+theorem sni_constants_pinned :
+    Generated.C10.extensionServerName = Model.C10.extensionServerName ∧
+    Generated.C10.nameTypeHost = Model.C10.nameTypeHost.toNat ∧
+    Generated.C10.nameStoreGuards = ["if _ == 0 [name]", "if _ == 0 [name] -> break"] := by decide
+
+/-- The checks of `clientHelloBufferSize` as normalised events, in order (the model has one branch per `if`). -/
+theorem bufsize_checks_pinned : Generated.C10.bufsizeEvents =
+    ["if len(_) < 9 -> return 0, …", "if _[0] != 22 -> return 0, …", "let (int(_[3])<<8)|int(_[4])",
+     "if _ == 0 || 16384 < _ -> return 0, …", "if _[5] != 1 -> return 0, …",
+     "let ((int(_[6])<<16)|(int(_[7])<<8))|int(_[8])", "if _ == 0 || _ < _+4 -> return 0, …"] := by decide
+
+/-- The checks, loops, byte reads and re-slicings of the parser `readServerName` calls (helpers inlined,
+variable names erased, conditions in normal form), in order: the model has one branch per `if`/`for`, one
+`idx` per byte read and one `sliceFrom` per `advance`. -/
+theorem unmarshal_checks_pinned : Generated.C10.unmarshalEvents =
+    ["if len(_) < 42 -> return false", "slice _[6:38]", "let int(_[38])",
+     "if 32 < _ || len(_) < _+39 -> return false", "advance _[_+39:]",
+     "if len(_) < 2 -> return false", "let (int(_[0])<<8)|int(_[1])",
+     "if _&1 != 0 || len(_) < _+2 -> return false", "advance _[_+2:]",
+     "if len(_) == 0 -> return false", "let int(_[0])", "if len(_) < _+1 -> return false", "advance _[_+1:]",
+     "if len(_) == 0 -> return true", "if len(_) < 2 -> return false", "let (int(_[0])<<8)|int(_[1])",
+     "advance _[2:]", "if _ != len(_) -> return false",
+     "for len(_) != 0", "if len(_) < 4 -> return false", "let (uint16(_[0])<<8)|uint16(_[1])",
+     "let (int(_[2])<<8)|int(_[3])", "advance _[4:]", "if len(_) < _ -> return false",
+     "if _ == 0 [name]", "if len(_) < 2 -> return false", "let (int(_[0])<<8)|int(_[1])", "advance _[2:]",
+     "if _ != len(_) -> return false", "for len(_) != 0", "if len(_) < 3 -> return false", "let _[0]",
+     "let (int(_[1])<<8)|int(_[2])", "advance _[3:]", "if len(_) < _ -> return false",
+     "if _ == 0 [name] -> break", "advance _[_:]", "advance _[_:]"] := by decide
+
 end Fabio.Props.C10Xlate
